@@ -43,6 +43,7 @@ type c11Case struct {
 	J      int       `json:"j"`
 	Procs  int       `json:"procs"`
 	Rounds int       `json:"rounds"`
+	Want   []c10Out  `json:"want,omitempty"` // isolated outcomes, computed by the driver (the worker never calls value.New while goroutines of an earlier case may still run)
 }
 
 type c11Round struct {
@@ -51,8 +52,7 @@ type c11Round struct {
 }
 
 // one round: generate a fresh function on fg, evaluate it from len(argss) goroutines at once
-func c11RunRound(c *c11Case, want []c10Out) c11Round {
-	s := c10NewSession(false)
+func c11RunRound(s *c10Session, c *c11Case, want []c10Out) c11Round {
 	fn, err := s.generate(c.Prog)
 	if err != nil {
 		fatal("c11: program %s does not generate: %v", c.Prog.Name, err)
@@ -113,13 +113,17 @@ func cmdC11Worker(seed int64, tier, in string) {
 		fatal("c11worker: %v", err)
 	}
 	w := bufio.NewWriter(os.Stdout)
+	// ONE generator for the whole worker: value.New writes package-level type ids (residue of C11), and library
+	// goroutines of an earlier case (merge producers after an early stop) may still be reading them
+	sess := c10NewSession(false)
 	for _, c := range cases {
 		fmt.Fprintf(os.Stderr, "@@CASE %d\n", c.ID)
 		runtime.GOMAXPROCS(c.Procs)
-		want := c11Isolated(c)
+		want := c.Want
 		res := c11WorkerRes{ID: c.ID}
 		for r := 0; r < c.Rounds; r++ {
-			rd := c11RunRound(c, want)
+			sess.funcs = nil
+			rd := c11RunRound(sess, c, want)
 			if rd.wrong >= 0 {
 				res.Wrong++
 				if res.Ex == "" {
@@ -237,6 +241,41 @@ func c11Observe(c *c11Case) c11Hook {
 	return h
 }
 
+// ---------------------------------------------------------------- private lazy lists: every closure-calling stage x every consumer
+
+// A lazy list is created INSIDE the evaluation (numbers(150+a0) through a stage that calls its closure on the
+// stack handed down by the consumer: value/list.go Combine, Combine3, CombineN, IIr, IIrCombine, Number, Compact,
+// Cross, Merge, FSM) and consumed by [i], size(), first(), ~, =, string(), reduce.  No constant is involved:
+// the model's prediction is "private state only, isolated outcome"; any race report or wrong outcome is an
+// unpredicted violation with signature unpredicted/<stage>/<consumer>.
+func c11StagePool() []*c10Prog {
+	stages := [][2]string{
+		{"combine", "numbers(150+a0).combine((p,q)->p+q*a1)"},
+		{"combine3", "numbers(150+a0).combine3((p,q,r)->p+q+r*a1)"},
+		{"combineN", "numbers(150+a0).combineN(3,l->l.sum()+a1)"},
+		{"iir", "numbers(150+a0).iir(x->x,(x,acc)->acc+x+a1)"},
+		{"iirCombine", "numbers(150+a0).iirCombine(x->x,(p,q,acc)->acc+q-p+a1)"},
+		{"number", "numbers(150+a0).number((i,e)->i*e+a1)"},
+		{"compact", "numbers(150+a0).compact((p,q)->(p-p%3)=(q-q%3)+a1*0)"},
+		{"cross", "numbers(12+a0).cross(numbers(12),(p,q)->p*q+a1)"},
+		{"merge", "numbers(150+a0).merge(numbers(100).map(e->e*2+a1),(p,q)->p<q)"},
+		{"fsm", "numbers(150+a0).fsm((s,i)->goto((3*s.state+i+a1)%7)).map(s->s.state)"},
+	}
+	consumers := [][2]string{
+		{"index", "%s[7+a1]"}, {"size", "%s.size()"}, {"first", "%s.first()"}, {"contains", "(7 ~ %s)"},
+		{"equal", "(%s=numbers(3))"}, {"string", "%s.string()"}, {"reduce", "%s.reduce((s,e)->s+e)"},
+	}
+	var ps []*c10Prog
+	for _, st := range stages {
+		for _, co := range consumers {
+			p := c10Opaque(st[0]+"/"+co[0], fmt.Sprintf(co[1], st[1]))
+			p.Class = "stage:" + st[0] + "/" + co[0]
+			ps = append(ps, p)
+		}
+	}
+	return ps
+}
+
 // ---------------------------------------------------------------- driver
 
 func c11Cases(seed int64, tier string) []*c11Case {
@@ -244,6 +283,11 @@ func c11Cases(seed int64, tier string) []*c11Case {
 	pool := c10Pool()
 	var progs []*c10Prog
 	progs = append(progs, pool...)
+	for _, p := range c10FailingPool() { // failing lazy constants; programs with a shared list ARGUMENT are out of scope (integer arguments)
+		if p.ListArg == "" && strings.HasSuffix(p.Name, "-append") {
+			progs = append(progs, p)
+		}
+	}
 	n := 100
 	if tier == "thorough" {
 		n = 1500
@@ -253,6 +297,14 @@ func c11Cases(seed int64, tier string) []*c11Case {
 		progs = append(progs, c10RandomProg(r, i))
 	}
 	var cases []*c11Case
+	for i, p := range c11StagePool() {
+		c := &c11Case{ID: len(cases) + 1, Prog: p, J: 100, Procs: []int{16, 2}[i%2]}
+		ng := []int{16, 8, 12}[i%3]
+		for g := 0; g < ng; g++ {
+			c.Argss = append(c.Argss, []int64{int64(g % 5), int64((g * 7) % 11)})
+		}
+		cases = append(cases, c)
+	}
 	ngs := []int{2, 4, 8, 16}
 	for i, p := range progs {
 		reps := 1
@@ -313,7 +365,11 @@ func cmdC11(seed int64, tier, outDir string) {
 	for _, c := range cases {
 		h := c11Observe(c)
 		hooks[c.ID] = h
+		c.Want = c11Isolated(c)
 		c.Rounds = calm
+		if strings.HasPrefix(c.Prog.Class, "stage:") {
+			c.Rounds = calm / 3
+		}
 		if h.touch {
 			c.Rounds = hammer
 		}
@@ -338,8 +394,10 @@ func cmdC11(seed int64, tier, outDir string) {
 		if rounds > 60 {
 			rounds = 60
 		}
+		sess := c10NewSession(false)
 		for r := 0; r < rounds; r++ {
-			rd := c11RunRound(c, want)
+			sess.funcs = nil
+			rd := c11RunRound(sess, c, want)
 			if r == 0 {
 				first = rd.outs
 			}
@@ -382,7 +440,7 @@ func cmdC11(seed int64, tier, outDir string) {
 		}
 		sig := h.kind
 		if sig == "" {
-			sig = "unpredicted/" + c.Prog.Class
+			sig = "unpredicted/" + strings.TrimPrefix(c.Prog.Class, "stage:")
 		}
 		human := map[string]any{"program": c.Prog.Src, "goroutines": len(c.Argss), "argss": c.Argss, "consumed": c.J, "gomaxprocs": c.Procs,
 			"repro": c, "signature": sig, "frozen_after_generate": h.frozen}
